@@ -443,3 +443,48 @@ def check(ctx: Ctx) -> None:
     # "empty results once the channel has ended", also on the second read after an unclean end: the end marker stays queued
     from .C03 import check_endmarker_requeue
     check_endmarker_requeue(ctx, "C19.g")
+
+    # "empty results once the channel has ended", also after an unclean end: at the end marker receive() re-raises the gateway's stored
+    # error, and read()/readline() turn exactly EOFError into "return what is left" -- so whatever the receiver thread stores must be one
+    check_stored_error_is_eof(ctx, "C19.h")
+
+    # what was written comes back as one stream on every transport: a low-level read that takes more than the frame's missing bytes
+    # swallows the start of the next frame and everything written later never arrives
+    with ctx.obligation("C19.i", "exact-read") as ob:
+        from .C08 import check_exact_read
+        for cname in ("Popen2IO", "SocketIO"):
+            check_exact_read(repo, ob, repo.cls(cname).methods["read"])
+
+
+def check_stored_error_is_eof(ctx: Ctx, oid: str) -> None:
+    """every value stored in `<gateway>._error` is an EOFError: the name bound by `except EOFError as exc` (or a tuple of its
+    subclasses), or a constructed EOFError (shared: C19.h, C04.n)"""
+    repo = ctx.repo
+    with ctx.obligation(oid, "stored-error-is-eof") as ob:
+        n = 0
+        for fi in repo.scan_funcs():
+            if fi.module.name != GB:
+                continue
+            for x in repo.own_nodes(fi):
+                if not (isinstance(x, ast.Assign) and any(isinstance(t, ast.Attribute) and t.attr == "_error" for t in x.targets)):
+                    continue
+                n += 1
+                v = x.value
+                ok = False
+                if isinstance(v, ast.Constant) and v.value is None:
+                    ok = True
+                elif isinstance(v, ast.Call) and repo.is_subclass_name(unparse(v.func).split(".")[-1], "EOFError"):
+                    ok = True
+                elif isinstance(v, ast.Name):
+                    for anc in repo.ancestors(x):
+                        if isinstance(anc, ast.ExceptHandler) and anc.name == v.id:
+                            t = anc.type
+                            names = [unparse(e).split(".")[-1] for e in (t.elts if isinstance(t, ast.Tuple) else [t])] if t is not None else ["BaseException"]
+                            ok = all(repo.is_subclass_name(nm, "EOFError") for nm in names)
+                            break
+                ob.site(fi, x, "the error remembered for waitclose()/receive() is an EOFError", ok=ok)
+                if not ok:
+                    ob.violation(fi, x, "the gateway's stored error can be something else than an EOFError: receive() re-raises it at the end marker, and "
+                                        "ChannelFileRead.read()/readline() (which turn only EOFError into 'return what is left, then empty') raise it on every call",
+                                 construct="_error not an EOFError")
+        ob.require(n >= 1, "no store to <gateway>._error found (expected in BaseGateway._thread_receiver)")
